@@ -232,3 +232,88 @@ func ruleGC(c *Ctx, rule string) {
 	}
 	_ = token.ADD
 }
+
+// every directory / link is examined in every round: the collectors leave their scan loop only when it is exhausted
+func ruleGCScansEverything(c *Ctx, rule string) {
+	for _, name := range []string{"(*flannelGC).cleanupIP", "(*flannelGC).cleanupGCDirs", "(*flannelGC).cleanupVeth"} {
+		fn := c.MustFn(rule, gcPkg, name)
+		if fn == nil {
+			continue
+		}
+		sc := calls(fn, "(*flannelGC).shouldCleanup")
+		if len(sc) == 0 {
+			c.undecided(rule, fn, "shouldCleanup", nil, "no decision call")
+			continue
+		}
+		// outermost loop header dominating the decision call
+		var h *ssa.BasicBlock
+		for _, b := range fn.Blocks {
+			back := false
+			for _, p := range b.Preds {
+				if b.Dominates(p) {
+					back = true
+				}
+			}
+			if back && b.Dominates(sc[0].Block()) && (h == nil || b.Dominates(h)) {
+				h = b
+			}
+		}
+		if h == nil {
+			c.undecided(rule, fn, "scan loop", nil, "no loop around shouldCleanup")
+			continue
+		}
+		loop := naturalLoop(h)
+		bad := ""
+		for b := range loop {
+			if b == h {
+				continue
+			}
+			for _, s := range b.Succs {
+				if !loop[s] {
+					bad = fmt.Sprintf("block %d leaves the loop to block %d (%s)", b.Index, s.Index, c.instrPos(s.Instrs[len(s.Instrs)-1]))
+				}
+			}
+		}
+		c.ob(rule, fn, "the scan loop is left only when exhausted", nil, bad == "", "no return/break inside the loop over directories/links: an unreadable directory or a failing entry does not keep the rest from being collected in this and every later round "+bad)
+	}
+	// the id asked about is the first line of the reservation file
+	if fn := c.MustFn(rule, gcPkg, "(*flannelGC).cleanupIP"); fn != nil {
+		sc := calls(fn, "(*flannelGC).shouldCleanup")
+		if len(sc) != 1 {
+			c.undecided(rule, fn, "shouldCleanup", nil, "expected one call")
+			return
+		}
+		id := sc[0].Common().Args[1]
+		var seps []string
+		okSplit := false
+		dependsOn(id, func(x ssa.Value) bool {
+			call, ok := x.(*ssa.Call)
+			if !ok {
+				return false
+			}
+			cn := calleeName(call)
+			switch {
+			case nameMatch(cn, "strings.Fields"):
+				okSplit = true
+				seps = append(seps, "<whitespace>")
+			case matchAny(cn, []string{"strings.Split", "strings.SplitN", "strings.SplitAfter", "strings.SplitAfterN", "strings.Cut", "strings.Index", "strings.IndexAny", "strings.IndexByte", "strings.IndexRune", "bytes.Split", "bytes.SplitN", "bytes.Cut", "bytes.Index", "bytes.IndexByte", "bytes.IndexAny"}):
+				if len(call.Call.Args) >= 2 {
+					a := stripConv(call.Call.Args[1])
+					if s, ok := constStringVal(a); ok {
+						seps = append(seps, fmt.Sprintf("%q", s))
+						if s == "\n" || (strings.Contains(cn, "IndexAny") && strings.Contains(s, "\n")) {
+							okSplit = true
+						}
+					} else if n, ok := constIntVal(a); ok {
+						seps = append(seps, fmt.Sprintf("%q", rune(n)))
+						if n == '\n' {
+							okSplit = true
+						}
+					}
+				}
+			}
+			return false
+		})
+		c.ob(rule, fn, "the container id asked about is the first line of the reservation file", sc[0], okSplit, fmt.Sprintf("the id passed to shouldCleanup derives from the file content through a split at \"\\n\" (the common part of both line breaks host-local has written: \\n and \\r\\n) or at whitespace; separators seen: %v", seps))
+	}
+}
